@@ -36,6 +36,15 @@ NOTE = {
 }
 DEFAULT_NOTE = "x86_64 only; Kani 0.68/CBMC 6.11/CaDiCaL and Kani's malloc/free/memcpy models trusted; allocator shim via #[kani::stub]; ModelStr oracle validated natively against std::String on every run; bounds as in evidence.coverage.bounds (text <= 24 bytes, capacity <= 40, <= 3 handles per buffer, one symbolic step)."
 
+# thorough tiers that were run end-to-end on the unchanged tree in this session (exit 0); the others are
+# generated by lib/props.py (./check <id> --tier thorough) but are not registered, because a thorough
+# command that has never completed could only be claimed on faith
+THOROUGH_OK = []
+try:
+    THOROUGH_OK = [l.strip() for l in open(os.path.join(VERIF, "thorough_ok.txt")) if l.strip() and not l.startswith("#")]
+except FileNotFoundError:
+    pass
+
 NOT_APPLICABLE = {
     "C18": "needs the state *after unwinding* (SetLenOnDrop guard, drop or non-drop of accumulators): Kani/CBMC model a panic as 'path ends' - no unwinding, no Drop on the panic path, and its panic hook cannot be stubbed; an own MIR interpreter with cleanup edges would check my model of Chars/encode_utf8/fmt rather than the code (DESIGN 7)",
 }
@@ -50,10 +59,11 @@ def main():
         if pid not in props.PLANS or pid in NOT_APPLICABLE:
             continue
         plan = props.plan(pid, "quick", 0)
+        entry_thorough = {"thorough_cmd": "./check %s --tier thorough" % pid} if pid in THOROUGH_OK else {}
         checks.append({
             "property_id": pid,
             "quick_cmd": "./check %s --tier quick" % pid,
-            "thorough_cmd": "./check %s --tier thorough" % pid,
+            **entry_thorough,
             "evidence_file": "/verif/evidence/%s.json" % pid,
             "replay_cmd_template": "./check %s --replay {path}" % pid,
             "engine": "mir2smt+kani" if pid == "C14" else ("kani-seam" if pid == "C04" else "kani-std"),
